@@ -38,8 +38,8 @@ def run(ctx):
     b = vlib.harness_bin("c25")
     cli = vlib.cli_bin()
     tp = ctx.path("trace.ndjson")
-    rc, out, wall = vlib.sh([b, "record", tp, "seed=%d" % ctx.seed, "values=%d" % (110 if q else 900), "cli=" + cli,
-                             "clin=%d" % (6 if q else 40)], timeout=1500)
+    rc, out, wall = vlib.sh([b, "record", tp, "seed=%d" % ctx.seed, "values=%d" % (110 if q else 500), "cli=" + cli,
+                             "clin=%d" % (6 if q else 30)], timeout=1500)
     summary = J.summary_of(out)
     ctx.stage("record", wall, **summary)
     n = vlib.check_trace(ctx, "Trace_JqId.tla", "Trace.cfg", tp, sig_of, group_key=lambda e: True, timeout=1500, selftest=True)
